@@ -107,6 +107,48 @@ def run(tier, seed, only=None):
                         "with type_mappings %s, Rust type %s at site %s (mode %s) is emitted as `%s`; mapped names still declared in types.ts: %s"
                         % (json.dumps({k: TABLE[k] for k in leafnames}), o["spelling"], site, mode, emitted, mapped_declared),
                         {"type": types[idx], "site": site, "mode": mode, "rust": o["spelling"], "emitted": emitted})
+    # the same mapped names written path-qualified (std::path::PathBuf, chrono::DateTime<Utc>, crate::UserId,
+    # ext::Versioned<Uuid, Utc>): a path-qualified type is the type its last segment names, so the mapping applies -
+    # every expression of depth <= 1, judged against the rendering of its substituted twin
+    nqual = 0
+    if only is None:
+        def depth(t):
+            sub = rustgen.subterms(t)
+            return 0 if not sub else 1 + max(depth(x) for x in sub)
+        qidx = [i for i, t in enumerate(types) if has_mapped(t) and depth(t) <= 1 and subst_of.get(rustgen.canon(t)) is not None]
+        rustgen.QUALIFIED_SPELLING = True
+        try:
+            q_with, qfail, qruns = typecases.observe_types(d, [types[i] for i in qidx], extra_cfg={"type_mappings": TABLE}, extra_src=EXTRA_SRC)
+        finally:
+            rustgen.QUALIFIED_SPELLING = False
+        runs1 += qruns
+        qevents = []
+        qmeta = []
+        for o in q_with:
+            oi = qidx[o["idx"]]
+            t = types[oi]
+            twin = by_w[(have[rustgen.canon(subst_of[rustgen.canon(t)])], o["site"], o["mode"])]
+            observed = o["ts"] if o["lang"] == "ts" else o["zod"]
+            qevents.append({"event": "Mapped", "case": "qualified/%d/%s/%s" % (oi, o["site"], o["mode"]), "site": o["site"], "mode": o["mode"], "lang": o["lang"],
+                            "rust": o["rust"], "ts": o["ts"], "zod": o["zod"], "pts": twin["ts"], "pzod": twin["zod"],
+                            "declared": o["declared"], "referenced": typecases.referenced_names(observed)})
+            qmeta.append((oi, o))
+        nqual = len(qevents)
+        if qevents:
+            part = os.path.join(d, "trace-q.ndjson")
+            C.write_ndjson(part, qevents)
+            consumed, mism, r = C.validate_trace("Trace_Types", "Trace_Types", part, timeout=3000, heap="12g")
+            if not consumed:
+                raise C.ToolError("trace not consumed")
+            for m in mism:
+                oi, o = qmeta[m[1] - 1]
+                emitted = tsprint.show(o["ts"]) if o["lang"] == "ts" else tsprint.show_expr(o["zod"])
+                leafnames = sorted(_mapped_names(types[oi]))
+                verdicts.reject("qualified site=%s mode=%s type=%s mapped=%s" % (o["site"], o["mode"], typecases.head_signature(types[oi]), ",".join(leafnames)),
+                                "got=%s" % m[4],
+                                "with type_mappings %s, Rust type %s (path-qualified spelling) at site %s (mode %s) is emitted as `%s`"
+                                % (json.dumps({k: TABLE[k] for k in leafnames}), o["spelling"], o["site"], o["mode"], emitted),
+                                {"type": types[oi], "site": o["site"], "mode": o["mode"], "rust": o["spelling"], "emitted": emitted, "family": "qualified"})
     for o in rej_same:
         verdicts.reject("samedecl site=%s mode=%s type=%s" % (o["site"], o["mode"], o["key"]), "differs",
                         "a type that mentions no mapped name (%s) is rendered differently with and without the mapping table" % o["spelling"],
@@ -116,7 +158,8 @@ def run(tier, seed, only=None):
                 "emitted": tsprint.show(o["ts"]) if o["lang"] == "ts" else tsprint.show_expr(o["zod"])}
                for o in with_map[:: max(1, len(with_map) // 6)][:6]]
     C.write_evidence(PROP, tier, seed, "exploration", {
-        "evaluations": len(events),
+        "evaluations": len(events) + nqual,
+        "path_qualified_evaluations": nqual,
         "distinct_nontrivial": len({(o["key"], o["site"], o["mode"]) for o in with_map if has_mapped(types[o["idx"]])}),
         "rule": "one evaluation = one type expression at one site in one mode, generated with and without the "
                 "type_mappings table %s and judged by TLC (Mapped / SameDecl); non-trivial = the expression contains a mapped name"
